@@ -26,7 +26,7 @@ import warnings
 from hypothesis import strategies as st
 
 from .. import findings
-from ..core import Violation, Hyp, Custom, short
+from ..core import Violation, Enum, Hyp, Custom, short
 from ..gen import c04_changelog as G
 
 from debian.changelog import Changelog, ChangelogParseError, ChangelogCreateError
@@ -34,7 +34,8 @@ from debian.debian_support import Version
 
 ID = "C15"
 LEVEL = "exploration"
-RULE = ("text cases: lines of a well-formed changelog (C04 grammar, <=3 blocks) after 0..4 "
+RULE = ("enumerated: every pool line (thorough: every ordered pair) inserted at every position of a fixed "
+        "two-block changelog, and substituted for every line. text cases: lines of a well-formed changelog (C04 grammar, <=3 blocks) after 0..4 "
         "insert/delete/duplicate/swap operations, inserts drawn from a pool with representatives of "
         "every line class of the parser (junk, bare and damaged trailers, second/damaged headers, "
         "editor mode lines, comments, CVS keywords, the eight old-format patterns, whitespace-only "
@@ -55,6 +56,12 @@ ASSUMPTIONS = [
     "dual model for the deviation '%s': tolerated only while known_findings.json lists it" % "trailerless-block-drops-author-date",
     "Hypothesis 6.168 generators; Atheris/libFuzzer in the thorough tier; sha1 for distinctness",
 ]
+EXHAUSTIVE = {
+    "quick": "every line of the 103-line junk pool (all line classes of the parser) inserted at each of "
+             "the 12 positions of a fixed two-block changelog x allow_empty_author, and substituted "
+             "for each of its 11 lines",
+    "thorough": "as quick, plus every ordered pair of pool lines inserted together at each of the 12 positions",
+}
 BUDGET = {"quick": 200, "thorough": 1500}
 
 FORMS = ["str", "bytes", "lines", "lines-nl", "file"]
@@ -443,16 +450,61 @@ def check(case):
 
 
 # ------------------------------------------------------------------------------------------
+# enumeration: line class x parser state
+
+ENUM_BASE = [
+    "",
+    "ab (1.0-1) unstable; urgency=low",
+    "",
+    "  * x",
+    "",
+    " -- A <a@b.c>  Mon, 01 Jan 2000 00:00:00 +0000",
+    "",
+    "cd (0.9) stable; urgency=high (c), k=v",
+    "  * y",
+    " -- B <b@c.d>  Tue,  2 Feb 1999 1:02:03 -0100",
+    "",
+]
+ENUM_POOL = list(dict.fromkeys(G.JUNK))
+
+
+def _text_case(lines, aea):
+    return {"kind": "text", "lines": lines, "final_nl": True, "aea": aea, "form": "str"}
+
+
+def enum_single():
+    for p in range(len(ENUM_BASE) + 1):
+        for j in ENUM_POOL:
+            for aea in (False, True):
+                yield _text_case(ENUM_BASE[:p] + [j] + ENUM_BASE[p:], aea)
+    for p in range(len(ENUM_BASE)):
+        for j in ENUM_POOL:
+            yield _text_case(ENUM_BASE[:p] + [j] + ENUM_BASE[p + 1:], False)
+
+
+def enum_double():
+    for case in enum_single():
+        yield case
+    for p in range(len(ENUM_BASE) + 1):
+        for j1 in ENUM_POOL:
+            for j2 in ENUM_POOL:
+                yield _text_case(ENUM_BASE[:p] + [j1, j2] + ENUM_BASE[p:], False)
+
+
+# ------------------------------------------------------------------------------------------
 # generators
+
+
+_final_nl = st.sampled_from([True, True, True, False])
+_aea = st.booleans()
+_forms = st.sampled_from(FORMS)
 
 
 @st.composite
 def gen_text(draw, free=False):
     lines = draw(G.free_lines()) if free else draw(G.mutated_lines())
-    return {"kind": "text", "lines": lines,
-            "final_nl": draw(st.sampled_from([True, True, True, False])),
-            "aea": draw(st.booleans()),
-            "form": draw(st.sampled_from(FORMS))}
+    return {"kind": "text", "lines": lines, "final_nl": draw(_final_nl), "aea": draw(_aea),
+            "form": draw(_forms)}
 
 
 _values = {
@@ -460,78 +512,90 @@ _values = {
     "urgency": G.urgencies, "author": G.authors, "date": G.full_dates,
 }
 _change = st.one_of(G.change_lines, G.change_lines, G.blank_lines)
+_mostly = st.sampled_from([True, True, True, False])
+_two_in_three = st.sampled_from([True, True, False])
+_some_changes = st.lists(_change, max_size=3)
+_attr = st.sampled_from(EDITABLE)
+_block_index = st.integers(0, 3)
+_step_kind = st.sampled_from(["new_block", "add_change", "add_change", "set", "set", "set_version", "bset", "badd"])
 
 
 @st.composite
-def gen_new_block(draw):
+def _gen_new_block(draw):
     a = {}
-    full = draw(st.sampled_from([True, True, True, False]))
+    full = draw(_mostly)
     for k in ("package", "version", "distributions", "author", "date"):
-        if full or draw(st.booleans()):
+        if full or draw(_aea):
             a[k] = draw(_values[k])
-    if draw(st.sampled_from([True, True, False])):
+    if draw(_two_in_three):
         a["urgency"] = draw(G.urgencies)
         uc = draw(G.ucomments)
         if uc:
             a["urgency_comment"] = uc
-    if draw(st.booleans()):
-        a["changes"] = draw(st.lists(_change, max_size=3))
+    if draw(_aea):
+        a["changes"] = draw(_some_changes)
     pairs = draw(G.pair_lists())
     if pairs:
         a["other_pairs"] = pairs
-    if "version" in a and draw(st.booleans()):
+    if "version" in a and draw(_aea):
         a["version_object"] = True
     return ["new_block", a]
 
 
+gen_new_block = _gen_new_block()
+
+
 @st.composite
-def gen_step(draw):
-    kind = draw(st.sampled_from(["new_block", "add_change", "add_change", "set", "set", "set_version",
-                                 "bset", "badd"]))
+def _gen_step(draw):
+    kind = draw(_step_kind)
     if kind == "new_block":
-        return draw(gen_new_block())
+        return draw(gen_new_block)
     if kind == "add_change":
         return ["add_change", draw(_change)]
     if kind == "set":
-        attr = draw(st.sampled_from(EDITABLE))
+        attr = draw(_attr)
         return ["set", attr, draw(_values[attr])]
     if kind == "set_version":
-        return ["set_version", draw(G.versions())]
+        return ["set_version", draw(_values["version"])]
     if kind == "bset":
-        attr = draw(st.sampled_from(EDITABLE))
-        return ["bset", draw(st.integers(0, 3)), attr, draw(_values[attr])]
-    return ["badd", draw(st.integers(0, 3)), draw(_change)]
+        attr = draw(_attr)
+        return ["bset", draw(_block_index), attr, draw(_values[attr])]
+    return ["badd", draw(_block_index), draw(_change)]
 
 
+gen_step = _gen_step()
 _finish = st.one_of(
     st.builds(lambda v: ["set", "author", v], G.authors),
     st.builds(lambda v: ["set", "date", v], G.full_dates),
-    st.builds(lambda i, v: ["bset", i, "author", v], st.integers(0, 3), G.authors),
-    st.builds(lambda i, v: ["bset", i, "date", v], st.integers(0, 3), G.full_dates))
+    st.builds(lambda i, v: ["bset", i, "author", v], _block_index, G.authors),
+    st.builds(lambda i, v: ["bset", i, "date", v], _block_index, G.full_dates))
+_base_kind = st.sampled_from(["empty", "clean", "clean", "damaged", "truncated"])
+_steps_after_new_block = st.lists(gen_step, min_size=0, max_size=5)
+_steps = st.lists(gen_step, min_size=1, max_size=6)
+_aea_rarely = st.sampled_from([False, False, True])
+_clean_base = G.structs(max_blocks=2)
+_damaged_base = G.mutated_lines(max_ops=2)
 
 
 @st.composite
 def gen_history(draw):
-    which = draw(st.sampled_from(["empty", "clean", "clean", "damaged", "truncated"]))
+    which = draw(_base_kind)
     if which == "empty":
         base = None
-        first = [draw(gen_new_block())]
-    elif which == "clean":
-        base = G.render_lines(draw(G.structs(max_blocks=2)))
-        first = []
-    elif which == "damaged":
-        base = draw(G.mutated_lines(max_ops=2))
-        first = []
+        steps = [draw(gen_new_block)] + draw(_steps_after_new_block)
     else:
-        # a work-in-progress entry: the text stops before (or right after) the trailer
-        base = G.render_lines(draw(G.structs(max_blocks=2)))
-        del base[draw(st.sampled_from(range(1, len(base) + 1))):]
-        first = []
-    steps = first + draw(st.lists(gen_step(), min_size=0 if first else 1, max_size=5 if first else 6))
-    if which in ("damaged", "truncated") and draw(st.booleans()):
-        steps.insert(draw(st.sampled_from(range(len(steps) + 1))), draw(_finish))
-    return {"kind": "history", "base": base, "aea": draw(st.sampled_from([False, False, True])),
-            "steps": steps}
+        if which == "clean":
+            base = G.render_lines(draw(_clean_base))
+        elif which == "damaged":
+            base = draw(_damaged_base)
+        else:
+            # a work-in-progress entry: the text stops before (or right after) the trailer
+            base = G.render_lines(draw(_clean_base))
+            del base[1 + draw(G._index(len(base))):]
+        steps = draw(_steps)
+        if which != "clean" and draw(_aea):
+            steps.insert(draw(G._index(len(steps) + 1)), draw(_finish))
+    return {"kind": "history", "base": base, "aea": draw(_aea_rarely), "steps": steps}
 
 
 # ------------------------------------------------------------------------------------------
@@ -572,10 +636,12 @@ def fuzz_bytes_to_case(data):
 
 def sources(tier):
     if tier == "quick":
-        return [Hyp("mutated-text", gen_text(), 450, shards=8),
+        return [Enum("pool-line-at-every-position", enum_single, EXHAUSTIVE["quick"]),
+                Hyp("mutated-text", gen_text(), 450, shards=8),
                 Hyp("free-text", gen_text(free=True), 400, shards=2),
                 Hyp("histories", gen_history(), 250, shards=4)]
-    return [Hyp("mutated-text", gen_text(), 8000, shards=12),
-            Hyp("free-text", gen_text(free=True), 8000, shards=2),
-            Hyp("histories", gen_history(), 4000, shards=6),
+    return [Enum("pool-line-pairs-at-every-position", enum_double, EXHAUSTIVE["thorough"]),
+            Hyp("mutated-text", gen_text(), 6000, shards=12),
+            Hyp("free-text", gen_text(free=True), 6000, shards=2),
+            Hyp("histories", gen_history(), 3000, shards=6),
             Custom("atheris", fuzz_phase, shards=2)]
